@@ -198,7 +198,7 @@ def prepare_fixed_decimal(data, schema):
 
     tmp = BytesIO()
 
-    if sign:
+    if sign and unscaled_datum != 0:
         unscaled_datum = (1 << bits_req) - unscaled_datum
         unscaled_datum = mask | unscaled_datum
         for index in range(size - 1, -1, -1):
